@@ -629,7 +629,10 @@ func (o *operation) resolveMethod(transcoder *Transcoder) error {
 	uriPath := o.request.URL.Path
 	if o.client.protocol.protocol() == ProtocolREST {
 		var methods routeMethods
-		o.restTarget, o.restVars, methods = transcoder.restRoutes.match(uriPath, o.request.Method)
+		// REST routes are matched on the escaped path: template captures are
+		// percent-decoded by the router (exactly once), and a literal "%2F"
+		// must not be mistaken for a segment separator.
+		o.restTarget, o.restVars, methods = transcoder.restRoutes.match(o.request.URL.EscapedPath(), o.request.Method)
 		if o.restTarget != nil {
 			o.methodConf = o.restTarget.config
 			return nil
